@@ -34,6 +34,7 @@ mod suite_fee;
 mod suite_height;
 mod suite_provider;
 mod suite_tlv;
+mod suite_wire;
 
 fn main() {
     let args: Vec<String> = std::env::args().collect();
@@ -66,6 +67,7 @@ fn main() {
         "classify" => suite_classify::run(ctx),
         "provider" => suite_provider::run(ctx),
         "height" => suite_height::run(ctx),
+        "wire" => suite_wire::run(ctx),
         other => { eprintln!("unknown suite {}", other); std::process::exit(2); }
     }
 }
